@@ -133,6 +133,44 @@ pub fn c01(ctx: &mut Ctx, tier: &str, seed: u64) {
             }
         }
     }
+    // GIANT runs (more than 2^20 separators / `.` segments in one run): a cap on repetitions, a 16- or
+    // 20-bit counter … would show only here.  Implementation against std directly (the model is not run
+    // on megabyte inputs).
+    {
+        let n = (1usize << 20) + 5;
+        let mut giants: Vec<Vec<u8>> = Vec::new();
+        let mut g = b"a".to_vec();
+        g.extend(std::iter::repeat(b'/').take(n));
+        g.push(b'b');
+        giants.push(g);
+        giants.push(std::iter::repeat(b'/').take(n).collect());
+        let mut g = b"/x/".to_vec();
+        for _ in 0..(n / 2 + 3) {
+            g.extend_from_slice(b"./");
+        }
+        g.extend_from_slice(b"y/");
+        giants.push(g);
+        for g in &giants {
+            ctx.evals += 1;
+            let p = UnixPath::new(g);
+            let short = format!("comps u {}", hex(&g[..g.len().min(24)]));
+            let fwd: Vec<SComp> = p.components().map(|c| sc_u(&c)).collect();
+            let mut back: Vec<SComp> = p.components().rev().map(|c| sc_u(&c)).collect();
+            back.reverse();
+            let sfwd = std_comps(g);
+            let mut it = p.components();
+            let mut sit = sp(g).components();
+            it.next();
+            sit.next();
+            let rem_ok = sp(it.as_bytes()) == sit.as_path() && it.as_path::<UnixEncoding>().has_root() == sit.as_path().has_root();
+            it.next_back();
+            sit.next_back();
+            let rem_ok2 = sp(it.as_bytes()) == sit.as_path();
+            if fwd != sfwd || back != sfwd || !rem_ok || !rem_ok2 {
+                ctx.fail("giant-run-vs-std", None, short, format!("{} bytes: front {} back {} std {} remainder-ok {} {}", g.len(), show_sc(&fwd), show_sc(&back), show_sc(&sfwd), rem_ok, rem_ok2));
+            }
+        }
+    }
     ctx.sample(format!("mix u {} fbfb", hex(b"/a/./b/")));
     ctx.sample(format!("comps u {}", hex(&dom[dom.len() / 2])));
 }
@@ -283,6 +321,33 @@ pub fn c02(ctx: &mut Ctx, tier: &str, seed: u64) {
             if rk != want_k || rk2.map_or(false, |x| x != want_k) || rk3.map_or(false, |x| x != want_k)
                 || rp1 != want_p || rp2.map_or(false, |x| x != want_p) || rp3.map_or(false, |x| x != want_p) {
                 ctx.fail("prefix-try-from", None, rp.clone(), format!("{:?} / {:?} want {:?}", rk, rp1.map(|x| x.0), want_k));
+            }
+        }
+    }
+    {
+        let n = (1usize << 20) + 5;
+        let mut giants: Vec<Vec<u8>> = Vec::new();
+        for pre in [&b"a"[..], br"C:\x", br"\\?\C:\x", br"\\s\h\x"] {
+            let mut g = pre.to_vec();
+            g.extend(std::iter::repeat(b'\\').take(n));
+            g.push(b'b');
+            giants.push(g);
+        }
+        let mut g = br"C:\x\".to_vec();
+        for _ in 0..(n / 2 + 3) {
+            g.extend_from_slice(b".\\");
+        }
+        g.extend_from_slice(b"y");
+        giants.push(g);
+        for g in &giants {
+            ctx.evals += 1;
+            let p = WindowsPath::new(g);
+            let d = spec::win_decomp(g);
+            let fwd: Vec<SComp> = p.components().map(|c| sc_w(&c)).collect();
+            let mut back: Vec<SComp> = p.components().rev().map(|c| sc_w(&c)).collect();
+            back.reverse();
+            if fwd != d.comps || back != d.comps {
+                ctx.fail("giant-run-vs-grammar", None, format!("comps w {}", hex(&g[..g.len().min(24)])), format!("{} bytes: front {} back {} grammar {}", g.len(), show_sc(&fwd), show_sc(&back), show_sc(&d.comps)));
             }
         }
     }
